@@ -253,7 +253,7 @@ package raft
 //@ modifies l.inmem.snapshot, l.inmem.markerIndex, l.inmem.appliedToIndex, l.inmem.appliedToTerm, l.inmem.shrunk, l.inmem.entries, l.inmem.savedTo, l.committed, l.processed
 //@ ensures s.Index >= old(l.committed)
 //@ ensures l.committed == s.Index && l.processed == s.Index && l.lastIdx() == s.Index && l.firstIdx() == s.Index + 1
-//@ ensures l.inmem.valid() && l.inmem.savedTo == s.Index && l.inmem.snapshot.Term == s.Term
+//@ ensures l.inmem.valid() && l.inmem.savedTo == s.Index && l.inmem.snapshot != nil && l.inmem.snapshot.Term == s.Term && l.valid()
 
 //@ func (l *entryLog) getEntriesFromLogDB [C19]
 //@ requires l.valid() && low <= high && low >= l.firstIdx()
@@ -472,7 +472,7 @@ package raft
 //@ ensures r.state == candidate && r.term == old(r.term) + 1 && r.vote == r.replicaID && len(r.votes) == 0 && counttrue(r.votes) == 0 && (forall k uint64 :: !(k in r.votes)) && r.wf()
 //@ ensures (forall k uint64 :: (k in r.remotes) == old(k in r.remotes) && (k in r.witnesses) == old(k in r.witnesses))
 
-//@ func (r *raft) becomePreVoteCandidate [C18 C03]
+//@ func (r *raft) becomePreVoteCandidate [C18 C03 C02]
 //@ requires r.wf() && r.rl != nil && r.electionTimeout > 0
 //@ modifies r.state, r.term, r.vote, r.electionTick, r.randomizedElectionTimeout, r.votes, r.heartbeatTick, r.readIndex, r.pendingConfigChange, r.leaderTransferTarget, r.matched
 //@ modifies entries(r.remotes), entries(r.nonVotings), entries(r.witnesses), r.leaderID, r.leaderUpdate, r.prevLeader
@@ -807,6 +807,18 @@ package raft
 //@ ensures !old(mk(pb.SystemCtx, m.Hint, m.HintHigh) in r.readIndex.pending) ==> len(r.readyToRead) == old(len(r.readyToRead)) && len(r.msgs) == old(len(r.msgs))
 //@ loop 1 invariant len(r.readyToRead) + len(r.msgs) <= old(len(r.readyToRead)) + old(len(r.msgs)) + $i + 1 && len(r.readyToRead) >= old(len(r.readyToRead)) && len(r.msgs) >= old(len(r.msgs))
 
+// An InstallSnapshot is always answered with the follower's COMMIT index (after a restore that is
+// the snapshot's index, otherwise whatever was committed before): the acknowledged index raises the
+// leader's match for this replica, so it must never cover an unverified (possibly divergent) tail
+//@ extern github.com/lni/dragonboat/v4/internal/server (l IRaftEventListener) SnapshotRejected
+//@ func (r *raft) handleInstallSnapshotMessage [C02 C03 C19]
+//@ noframe
+//@ nobounds
+//@ requires r.wf() && m.Snapshot.Index < MaxUint64
+//@ ensures result == nil ==> len(r.msgs) == old(len(r.msgs)) + 1 && r.msgs[len(r.msgs) - 1].Type == pb.ReplicateResp && r.msgs[len(r.msgs) - 1].To == m.From && !r.msgs[len(r.msgs) - 1].Reject
+//@ ensures result == nil ==> r.msgs[len(r.msgs) - 1].LogIndex == r.log.committed
+//@ ensures r.log.committed >= old(r.log.committed)
+
 // L1 (log matching on the follower): entries are appended only after the (index, term) check,
 // the acknowledged and committed index never exceed what this message verified.
 //@ func (r *raft) handleReplicateMessage [C02 C19]
@@ -841,17 +853,37 @@ package raft
 //@ requires r.remotes != nil
 //@ modifies entries(r.remotes)
 //@ ensures replicaID in r.remotes && r.remotes[replicaID] != nil && fresh(r.remotes[replicaID]) && len(r.remotes) == old(len(r.remotes)) + ite(old(replicaID in r.remotes), 0, 1)
+//@ ensures r.remotes[replicaID].match == match && r.remotes[replicaID].next == next
 //@ ensures forall k uint64 :: k != replicaID ==> (k in r.remotes) == old(k in r.remotes) && r.remotes[k] == old(r.remotes[k])
 //@ func (r *raft) setNonVoting [C08]
 //@ requires r.nonVotings != nil
 //@ modifies entries(r.nonVotings)
-//@ ensures replicaID in r.nonVotings && r.nonVotings[replicaID] != nil
+//@ ensures replicaID in r.nonVotings && r.nonVotings[replicaID] != nil && r.nonVotings[replicaID].match == match && r.nonVotings[replicaID].next == next
 //@ ensures forall k uint64 :: k != replicaID ==> (k in r.nonVotings) == old(k in r.nonVotings) && r.nonVotings[k] == old(r.nonVotings[k])
 //@ func (r *raft) setWitness [C08]
 //@ requires r.witnesses != nil
 //@ modifies entries(r.witnesses)
-//@ ensures replicaID in r.witnesses && r.witnesses[replicaID] != nil
+//@ ensures replicaID in r.witnesses && r.witnesses[replicaID] != nil && r.witnesses[replicaID].match == match && r.witnesses[replicaID].next == next
 //@ ensures forall k uint64 :: k != replicaID ==> (k in r.witnesses) == old(k in r.witnesses) && r.witnesses[k] == old(r.witnesses[k])
+
+// C02 (commit by counting match indexes): a member the leader has just added is known to hold
+// NOTHING -- its match index starts at 0 and only acknowledgements raise it; starting it anywhere
+// else would let the leader count entries the new member never received towards a quorum
+//@ func (r *raft) addNode [C02 C18]
+//@ noframe
+//@ nobounds
+//@ requires r.wf() && r.rl != nil && r.electionTimeout > 0
+//@ ensures !old(replicaID in r.remotes) && !old(replicaID in r.nonVotings) ==> replicaID in r.remotes && r.remotes[replicaID].match == 0 && r.remotes[replicaID].next == r.log.lastIdx() + 1
+//@ func (r *raft) addNonVoting [C02 C18]
+//@ noframe
+//@ nobounds
+//@ requires r.wf()
+//@ ensures !old(replicaID in r.nonVotings) ==> replicaID in r.nonVotings && r.nonVotings[replicaID].match == 0 && r.nonVotings[replicaID].next == r.log.lastIdx() + 1
+//@ func (r *raft) addWitness [C02 C18]
+//@ noframe
+//@ nobounds
+//@ requires r.wf()
+//@ ensures !old(replicaID in r.witnesses) ==> replicaID in r.witnesses && r.witnesses[replicaID].match == 0 && r.witnesses[replicaID].next == r.log.lastIdx() + 1
 
 //@ func (r *raft) restoreRemotes [C08 C07 C18]
 //@ noframe
